@@ -39,3 +39,27 @@ c.let('__self__', 'self')
 c.props('C16')
 c.trace("template-attributes-are-defined-by-the-requests-version", t_version_gate)
 c.scope('trace.template-attributes', 'C16')
+
+
+# ---------------------------------------------------------------- _set_attributes_on_managed_object
+# proved for an attribute dictionary with ANY number of entries (arbitrary entry: any name of the
+# rule table with a value of that name's kind, or an unknown name) on a new object of any stored
+# class: it raises nothing but InvalidField and never touches the store.
+def _typed_attribute_dictionary():
+    from contracts.c_engine import _attr_value_kinds
+    # the values are only handed on to _set_attribute_on_managed_object (used by its contract), so
+    # they stay as abstract as the template processing leaves them
+    return ('sdict', ('bykey', dict(_attr_value_kinds())))
+
+
+c = contract(E + "_set_attributes_on_managed_object", variant="body").props('C13', 'C08')
+c.args(self=ENGINE, managed_object=('managed_fresh',), attributes=_typed_attribute_dictionary())
+c.notes.append("any number of entries; the per-attribute setter is used by its contract")
+c.loop(0, "True", modifies=["managed_object.*"])
+c.raises('exceptions.InvalidField')
+c.trace("no-store-effect", lambda ev, outcome, exc: True if not any(
+    e[0] in ('db.add', 'db.delete', 'db.commit', 'db.query') or (e[0] == 'db.mutate' and e[5]) for e in ev)
+    else "setting attributes on a new object touches the store")
+c.modifies("managed_object.*")
+c.max_paths = 40000
+c.split_by = [('fresh-class', 7), ('protocol-version', 6)]
